@@ -687,7 +687,8 @@ func drvFileComments(r *rand.Rand, n int) [][]Action {
 // produce them.  (No model comparison for these: the monitors read the observations.)
 func drvScale(r *rand.Rand, n int) [][]Action {
 	out := [][]Action{}
-	light := func(h []Action) []Action { h[0].Light = true; return h }
+	// (every history ends with a second render: what the first one handed out must still be declared by the next)
+	light := func(h []Action) []Action { h[0].Light = true; return append(h, Action{A: "Render"}) }
 	competitors := []int{130}
 	if n > 5000 {
 		competitors = append(competitors, 1100)
@@ -733,7 +734,9 @@ func drvScale(r *rand.Rand, n int) [][]Action {
 				h = append(h, Action{A: "Render"})
 			}
 		}
-		for _, p := range []string{"late/d", "next/d", "t1/types", "t2/types", "t3/types", "t4/types", "big7/p7", "dot2/q", "third/d"} {
+		// (rendered, then ONLY the anonymous path is referenced - no import is added, one changes its name -, rendered)
+		h = append(h, Action{A: "Render"}, Action{A: "Add", Tree: varQ("late/d", st.sym("late/d"))}, Action{A: "Render"}, Action{A: "Render"})
+		for _, p := range []string{"next/d", "t1/types", "t2/types", "t3/types", "t4/types", "big7/p7", "dot2/q", "third/d"} {
 			h = append(h, Action{A: "Add", Tree: varQ(p, st.sym(p))})
 		}
 		out = append(out, light(append(h, Action{A: "Render"})))
